@@ -157,7 +157,7 @@ func c14Case(r *fw.Rand, index string) fw.Case {
 			ops = append(ops, "sfcompact")
 			observe()
 		case 10:
-			ops = append(ops, "snap")
+			ops = append(ops, []string{"snap", "snap", "snap", "snapfail"}[r.Intn(4)])
 		default:
 			ops = append(ops, "reopen")
 			observe()
